@@ -1566,6 +1566,8 @@ func runC07(r *Run, rng *Rng, replay string) {
 	c07Random(r, f, rng, nRandom)
 	c07MalformedStream(r, f, rng, nMal)
 	c07SharedWitness(r)
+	c07RangeOrder(r, rng, thorough)
+	c07SharedText(r, rng, thorough)
 	for i := 0; i < nWb; i++ {
 		t0 := time.Now()
 		c07Workbook(r, rng, i)
@@ -1575,4 +1577,90 @@ func runC07(r *Run, rng *Rng, replay string) {
 		}
 	}
 	r.Samples = r.opsSample(10)
+}
+
+// c07RangeOrder ties Spec.refCells (the row-major enumeration the range/aggregate theorems speak
+// about) to calc.go's range resolution: every cell (col,row) of a block holds the text "col.row";
+// TEXTJOIN(",",FALSE,<reference>) evaluated by the real CalcCellValue lists the cells in the order
+// rangeResolver puts them into the argument matrix. Transcript op: cells <hex reference>.
+func c07RangeOrder(r *Run, rng *Rng, thorough bool) {
+	f := xl.NewFile()
+	defer f.Close()
+	for c := 1; c <= 9; c++ {
+		for ro := 1; ro <= 13; ro++ {
+			must(f.SetCellValue("Sheet1", c07Name(c, ro), fmt.Sprintf("%d.%d", c, ro)))
+		}
+	}
+	run := func(rf *c07Ref) {
+		text := rf.cellText()
+		must(f.SetCellFormula("Sheet1", "M20", "TEXTJOIN(\",\",FALSE,"+text+")"))
+		v, err := f.CalcCellValue("Sheet1", "M20")
+		res := v
+		if err != nil {
+			res = "ERR"
+		}
+		r.Op("cells "+hx(text), res)
+		r.Case("cells:"+text, rf.shape == 1)
+		r.Stat("cells:evaluated")
+	}
+	n := 150
+	if thorough {
+		n = 1500
+	}
+	// all small rectangles at one corner, then random ones (normalised and reversed corners, $ flags)
+	for c2 := 1; c2 <= 4; c2++ {
+		for r2 := 1; r2 <= 4; r2++ {
+			run(&c07Ref{shape: 1, c1: 2, r1: 3, c2: 2 + c2 - 1, r2: 3 + r2 - 1})
+		}
+	}
+	for i := 0; i < n; i++ {
+		rf := &c07Ref{shape: rng.Intn(2), c1: rng.Range(1, 9), r1: rng.Range(1, 13), c2: rng.Range(1, 9), r2: rng.Range(1, 13)}
+		rf.ac1, rf.ar1, rf.ac2, rf.ar2 = rng.Bool(), rng.Bool(), rng.Bool(), rng.Bool()
+		run(rf)
+	}
+}
+
+// c07SharedText ties Impl.parseSharedFormula / shiftCell to the real code through the public API: a
+// shared formula is set on J10 with a range that surrounds it, and GetCellFormula of a cell of that
+// range returns the text derived for the offset (dCol,dRow) — negative offsets included. Transcript op:
+// shf <dCol> <dRow> <tok>...
+func c07SharedText(r *Run, rng *Rng, thorough bool) {
+	sharedT, ref := xl.STCellFormulaTypeShared, "F6:N14"
+	g := &c07Gen{rng: rng, sheets: []string{"Sheet1", "Data2"}, names: []string{"TaxRate"}}
+	n := 250
+	if thorough {
+		n = 3000
+	}
+	fixed := []string{"A1", "$A$1", "A$1", "$A1", "A1:B2", "$A1:B$2", "A:B", "$A:B", "1:2", "$1:2", "C3:D", "XFD1048576", "XFA1048570:XFD1048576",
+		"SUM(A1:A3)*\"a\"\"b\"", "A1 B2", "Sheet1!A1", "Sheet1!A1:B2", "TaxRate", "A1:B2:C3", "a1", "A01", "-A1%", "B2+{1,2;3,4}"}
+	for i := 0; i < n+len(fixed); i++ {
+		var formula string
+		if i < len(fixed) {
+			formula = fixed[i]
+		} else {
+			formula = g.tree(rng.Range(1, 3)).String()
+		}
+		f := xl.NewFile()
+		if err := f.SetCellFormula("Sheet1", "J10", formula, xl.FormulaOpts{Type: &sharedT, Ref: &ref}); err != nil {
+			f.Close()
+			continue
+		}
+		for k := 0; k < 3; k++ {
+			dc, dr := rng.Range(-4, 4), rng.Range(-4, 4)
+			if i < len(fixed) && k == 0 {
+				dc, dr = 2, 3
+			}
+			if dc == 0 && dr == 0 {
+				continue
+			}
+			got, err := f.GetCellFormula("Sheet1", c07Name(10+dc, 10+dr))
+			if err != nil {
+				continue
+			}
+			r.Op(fmt.Sprintf("shf %d %d%s", dc, dr, c07TokWire(c07Tokens(formula))), hx(got))
+			r.Case("shf:"+formula+fmt.Sprint(dc, dr), got != formula)
+			r.Stat("shf:derived")
+		}
+		f.Close()
+	}
 }
